@@ -14,7 +14,9 @@ RULE = ('one case = one tape history: 1..4 files (data via PRINT#/WRITE#, ASCII 
         'record payload and of the 256-byte block (quick: boundary set; thorough: every length 0..3*255+2 for each '
         'file kind), written in one or two Sessions (the second appends after playing to the end), the image is '
         'reopened in fresh Sessions and read with INPUT$ / LINE INPUT# / LOAD / BLOAD in several orders, including '
-        'searches that fail (name not on the tape, file behind the head) followed by further reads; '
+        'searches that fail (name not on the tape, file behind the head) followed by further reads, data files '
+        'closed after a partial read (k bytes or lines, k from 0 to the whole file) followed by the next / another '
+        'file, and reads after writes in the same Session; '
         'non-trivial = at least one file has a non-empty content')
 EXPLANATION = ('theorems (PcbV.Props.C29): text and binary record framing round trip for every content, search finds the '
                'first matching file, skips the others, returns exactly its bytes and leaves the tape at the next '
@@ -517,6 +519,78 @@ class Tape(object):
         # the tape is played from its beginning again
         self.pos = 0
 
+    def partial_read(self, idx, k, chunk):
+        """Open data file idx, take only its first k bytes (chunk > 0: INPUT$ in pieces of `chunk`) or its first k
+        lines (chunk == 0: LINE INPUT#), and CLOSE it with the rest unread.  Statement: what was read is a prefix of
+        the file, and the unread rest never shows up in whatever is read next."""
+        s = self.session
+        f = self.spec['files'][idx]
+        assert f['type'] == 'D'
+        req = unhx(f['name'])
+        target = self.find_expected(req, b'D')
+        if target is None:
+            raise RuntimeError('plan asks for a partial read of a file behind the head')
+        tw = self.written[target]
+        content = tw['content']
+        self.setname(req)
+        self.ops.append('or,%s,%s' % (hx(req), hx(b'D')))
+        out = self.ex(b'OPEN N$ FOR INPUT AS 1')
+        msgs, err = parse_msgs(out)
+        word = 'or:' + ','.join(('F' if fnd else 'S') + hx(t) + '.%d' % ord(ty) for fnd, t, ty in msgs)
+        if err:
+            word += ',e%s' % err
+        self.outs.append(word)
+        exp_msgs = [(False, self.written[i]['trunk'], self.written[i]['type']) for i in range(self.pos, target)]
+        exp_msgs.append((True, tw['trunk'], tw['type']))
+        label = 'partial read of D file %d %r (%d bytes)' % (idx, req, len(content))
+        if msgs != exp_msgs or err:
+            self.problems.append(('search:D', '%s: messages %r error %r, expected %r' % (label, msgs, err, exp_msgs)))
+        got = b''
+        if not err:
+            if chunk == 0:
+                for _ in range(k):
+                    rest = content[len(got):]
+                    cr = rest.find(b'\r')
+                    if not rest:
+                        break
+                    if 0 <= cr < 255:
+                        out = self.ex(b'LINE INPUT#1,A$')
+                        piece = s.get_variable('A$') + b'\r'
+                        # the text layer takes the line byte by byte from the stream
+                        want = cr + 1
+                    else:
+                        out = self.ex(b'A$=INPUT$(1,#1)')
+                        piece = s.get_variable('A$')
+                        want = 1
+                    if out.strip():
+                        self.outs.append('e:' + repr(out))
+                        self.ops.append('r,1')
+                        break
+                    self.ops += ['r,1'] * want
+                    self.outs += ['d' + hx(piece[i:i + 1]) for i in range(want)]
+                    got += piece
+            else:
+                k = min(k, len(content))
+                while len(got) < k:
+                    n = min(chunk, k - len(got))
+                    out = self.ex(b'A$=INPUT$(%d,#1)' % n)
+                    self.ops.append('r,%d' % n)
+                    if out.strip():
+                        self.outs.append('e:' + repr(out))
+                        break
+                    piece = s.get_variable('A$')
+                    self.outs.append('d' + hx(piece))
+                    got += piece
+            self.ex(b'CLOSE 1')
+            self.ops.append('c')
+            self.outs.append('c')
+            self.ctx.count('partial-read:%s' % ('nothing' if not got else 'whole' if len(got) == len(content)
+                                                else 'record-boundary' if len(got) % 255 == 0 else 'inside-record'))
+            if got != content[:len(got)] or (chunk and len(got) != k):
+                self.problems.append(('partial:D', '%s: the first %d bytes read are %r…, the file starts with %r…'
+                                      % (label, len(got), got[:30], content[:30])))
+        self.pos = target + 1
+
     def read_behind(self, idx):
         """ask for a file that lies behind the head: the search runs off the end (Device Timeout); asked again,
         the file is found from the beginning of the tape"""
@@ -605,6 +679,21 @@ def work_dir():
     return _WORK[0]
 
 
+def run_plan(t, plan):
+    for idx in plan:
+        if isinstance(idx, list):
+            if idx[0] == 'miss':
+                t.failed_search(MISSING_NAME, idx[1])
+            elif idx[0] == 'part':
+                t.partial_read(idx[1], idx[2], idx[3])
+            else:
+                t.read_behind(idx[1])
+        elif idx < 0:
+            t.read_file(-idx - 1, by_empty_name=True)
+        else:
+            t.read_file(idx)
+
+
 def run_tape(ctx, spec):
     """Execute one tape history on the real code; returns (model line, impl reply, problems)."""
     workdir = work_dir()
@@ -624,6 +713,11 @@ def run_tape(ctx, spec):
             for i in range(nxt, nxt + count):
                 t.write_file(files[i])
             nxt += count
+            # write, then read in the same Session: the search runs off the end, rewinds, and finds the file
+            # (CAS only: a WAV image created in this Session is opened write-only)
+            after = spec.get('after', [])
+            if t.fmt == 'cas' and pi < len(after) and after[pi]:
+                run_plan(t, after[pi])
             t.close_session()
             if t.fmt == 'cas':
                 t.ops.append('t')
@@ -645,16 +739,7 @@ def run_tape(ctx, spec):
             t.ops.append('re')
             t.outs.append('re')
             t.pos = 0
-            for idx in plan:
-                if isinstance(idx, list):
-                    if idx[0] == 'miss':
-                        t.failed_search(MISSING_NAME, idx[1])
-                    else:
-                        t.read_behind(idx[1])
-                elif idx < 0:
-                    t.read_file(-idx - 1, by_empty_name=True)
-                else:
-                    t.read_file(idx)
+            run_plan(t, plan)
             t.close_session()
     finally:
         t.close_session()
@@ -662,7 +747,7 @@ def run_tape(ctx, spec):
             os.remove(t.path)
         except EnvironmentError:
             pass
-    return '111 ' + ';'.join(t.ops), ' '.join(t.outs), t.problems
+    return '1111 ' + ';'.join(t.ops), ' '.join(t.outs), t.problems
 
 
 # --------------------------------------------------------------------------------------------------
@@ -678,7 +763,7 @@ BOUNDARY = sorted(set(
 BIN_BOUNDARY = sorted(set([0, 2, 8, 10, 100, 164, 165] + [k * 256 + d for k in (1, 2, 3) for d in (-2, -1, 0, 1, 2)]))
 
 
-def gen_spec(rng, fmt, lengths, types, nfiles=None):
+def gen_spec(rng, fmt, lengths, types, nfiles=None, quick=True):
     """A tape with the given (type, length) files first, filled up to nfiles with random ones."""
     used = set()
     files = []
@@ -717,7 +802,43 @@ def gen_spec(rng, fmt, lengths, types, nfiles=None):
     if n >= 2 and rng.random() < 0.6:
         j = rng.randint(1, n - 1)
         reads.append([j, ['back', rng.randint(0, j)], ['back', 0]])
-    return {'fmt': fmt, 'files': files, 'phases': phases, 'reads': reads}
+    # histories that stop part-way through a data file, CLOSE it and go on with the next / another file
+    dfiles = [i for i in range(n) if files[i]['type'] == 'D']
+    for _ in range(1 if quick else 3):
+        if dfiles and rng.random() < 0.6:
+            reads.append(partial_plan(rng, files, rng.choice(dfiles)))
+    # read after write in the same Session
+    after = []
+    done = 0
+    for count in phases:
+        done += count
+        after.append([['back', rng.randrange(done)]] if rng.random() < 0.25 else [])
+    return {'fmt': fmt, 'files': files, 'phases': phases, 'reads': reads, 'after': after}
+
+
+def partial_plan(rng, files, i):
+    n = len(files)
+    L = files[i]['target']
+    k = rng.choice([0, 1, 2, 7, L // 2, max(L - 1, 0), L, 254, 255, 256, 300, rng.randint(0, max(L, 1))])
+    k = max(0, min(k, L))
+    lined = all(kind != 'raw' for kind, _ in files[i]['pieces'])
+    if lined and rng.random() < 0.5:
+        item = ['part', i, rng.choice([1, 1, 2, 3]), 0]
+    else:
+        item = ['part', i, k, rng.choice([255, 255, 100, 7, 1]) if k <= 60 else rng.choice([255, 255, 100])]
+    plan = sorted(rng.sample(range(i), rng.randint(0, i))) if i and rng.random() < 0.4 else []
+    plan.append(item)
+    if i + 1 < n:
+        # most often the file that directly follows
+        j = i + 1 if rng.random() < 0.8 else rng.randint(i + 1, n - 1)
+        plan.append(j)
+        if files[j]['type'] == 'D' and j + 1 < n and rng.random() < 0.5:
+            plan[-1] = ['part', j, rng.randint(0, files[j]['target']), 255]
+            plan.append(j + 1)
+    else:
+        # the same file again, completely (the search runs off the end and comes back)
+        plan.append(['back', i])
+    return plan
 
 
 def check_spec(ctx, spec, batch):
@@ -778,18 +899,18 @@ def run(ctx):
     else:
         top = 3 * 255 + 2
         for L in range(top + 1):
-            specs.append(gen_spec(rng, 'cas', [L, rng.choice(BOUNDARY)], 'DD', nfiles=2))
+            specs.append(gen_spec(rng, 'cas', [L, rng.choice(BOUNDARY)], 'DD', nfiles=2, quick=False))
         for typ in 'ABPM':
             for L in range(0, top + 1, 3):
                 ls = [l for l in (L, L + 1, L + 2) if l <= top]
-                specs.append(gen_spec(rng, 'cas', ls, typ * len(ls)))
+                specs.append(gen_spec(rng, 'cas', ls, typ * len(ls), quick=False))
         for _ in range(300):
-            specs.append(gen_spec(rng, 'cas', [], ''))
+            specs.append(gen_spec(rng, 'cas', [], '', quick=False))
         for L in BOUNDARY:
             specs.append(gen_spec(rng, 'wav', [L, rng.choice(BOUNDARY)], rng.choice(['DD', 'DA', 'DM', 'DB', 'DP']),
                                   nfiles=rng.randint(2, 3)))
         for _ in range(40):
-            specs.append(gen_spec(rng, 'wav', [], ''))
+            specs.append(gen_spec(rng, 'wav', [], '', quick=False))
         ctx.exhaustive = False
         ctx.notes['exhaustive_lengths'] = 'every content length 0..%d for data files (first of two) and, in groups of ' \
                                           'three per tape, for A/B/P/M files' % top
@@ -815,7 +936,8 @@ def crafted(ctx):
                 {'name': hx(b'TWO'), 'type': 'D', 'target': 11, 'pieces': [['raw', hx(b'second file')]],
                  'read': 'input$', 'chunk': 255},
             ]
-            check_spec(ctx, {'fmt': fmt, 'files': files, 'phases': [2], 'reads': [[1], [0, 1]]}, batch)
+            check_spec(ctx, {'fmt': fmt, 'files': files, 'phases': [2],
+                             'reads': [[1], [0, 1], [['part', 0, 5, 255], 1]]}, batch)
         # memory image starting with 0xA5 and a name, skipped on the way to the file of that name
         files = [
             {'name': hx(b'IMG'), 'type': 'M', 'target': 300, 'content': hx(b'\xa5NEXT    \x00' + b'\x07' * 289 + b'\x1a')},
@@ -827,7 +949,41 @@ def crafted(ctx):
         ]
         check_spec(ctx, {'fmt': fmt, 'files': files, 'phases': [4],
                          'reads': [[1, 3], [3], [0, 1, 2, 3], [['miss', 'D'], 1, ['back', 0], ['miss', 'M'], 3]]}, batch)
+    partial_family(ctx, batch)
     flush_batch(ctx, batch)
+
+
+def partial_family(ctx, batch):
+    """Deterministic family: a data file is closed before its current record is consumed, then the file that
+    directly follows (every kind) is read; also at record boundaries, with nothing read, and on a WAV image."""
+    def dfile(name, lines, raw=b''):
+        pieces = [['line', hx(l)] for l in lines] + ([['raw', hx(raw)]] if raw else [])
+        n = sum(len(l) + 1 for l in lines) + len(raw)
+        return {'name': hx(name), 'type': 'D', 'target': n, 'pieces': pieces, 'read': 'input$', 'chunk': 255}
+    long_lines = [b'LINE %03d ' % i + b'abcdefghijklmnopqrstuvwxyz'[:i % 20] for i in range(28)]
+    first = dfile(b'FIRST', [b'ALPHA', b'BRAVO', b'CHARLIE'])
+    big = dfile(b'BIG', long_lines, b'tail without line end')
+    second = dfile(b'SECOND', [b'12345', b'SECOND FILE'])
+    prog = {'name': hx(b'PROG'), 'type': 'B', 'target': 40, 'lines': [hx(b'10 REM tape program'), hx(b'20 REM x')]}
+    asc = {'name': hx(b'ASC'), 'type': 'A', 'target': 30, 'lines': [hx(b'10 REM ascii program'), hx(b'20 REM y')]}
+    prot = {'name': hx(b'PROT'), 'type': 'P', 'target': 30, 'lines': [hx(b'10 REM protected')]}
+    mem = {'name': hx(b'MEM'), 'type': 'M', 'target': 70, 'content': hx(bytes(range(3, 73)))}
+    L = big['target']
+    tapes = [
+        ('cas', [first, second, prog, mem],
+         [[['part', 0, 1, 0], 1], [['part', 0, 7, 7], 1, 2, 3], [0, ['part', 1, 1, 0], 2], [['part', 1, 6, 255], 2, 3],
+          [['part', 0, 0, 255], 1]]),
+        ('cas', [big, mem, second, asc],
+         [[['part', 0, 3, 0], 1], [['part', 0, 255, 255], 1], [['part', 0, 300, 100], 1, ['part', 2, 2, 1], 3],
+          [['part', 0, L, 255], 1], [['part', 0, L - 1, 255], 1, 2], [['part', 2, 1, 0], 3]]),
+        ('cas', [second, prot, first, big],
+         [[['part', 0, 1, 1], 1], [0, 1, ['part', 2, 2, 0], 3], [['part', 3, 256, 255], ['back', 3]]]),
+        ('wav', [first, second, prog], [[['part', 0, 1, 0], 1, 2], [0, ['part', 1, 3, 1], 2]]),
+    ]
+    for fmt, files, reads in tapes:
+        files = [dict(f) for f in files]
+        check_spec(ctx, {'fmt': fmt, 'files': files, 'phases': [len(files)], 'reads': reads,
+                         'after': [[['back', 0]]]}, batch)
 
 
 def replay(ctx, payload):
